@@ -45,4 +45,85 @@ def lateErrors : List (String × Nat) := [("Slice", 0), ("Select", 0), ("Drop", 
 /-- `return qf.m(…)` of a frame method after the prefix that is not part of the chain (its arguments are computed, not the request's): (operation, callee: an exported operation, else `helper`) -/
 def openTails : List (String × String) := [("Drop", "Select")]
 
+/-- the guard prefix of the remaining operations of qframe.go and grouper.go, by role: (operation, steps). `apply0`…`apply2` are the frame methods `Apply` dispatches to, named by their number of source columns; `filterLeaf` is the frame method that takes the leaf filters of a clause -/
+def guardAst2 : List (String × List GStep) := [
+  ("Sort", [
+    GStep.guard GCond.qfHasErr GOut.returnSelf,
+    GStep.guard (GCond.eqI (GInt.count GColl.orderCols) (GInt.lit 0)) GOut.returnSelf,
+    GStep.forEach GColl.orderCols (GCond.unknownColumn GRole.each) GOut.err]),
+  ("Distinct", [
+    GStep.guard GCond.qfHasErr GOut.returnSelf,
+    GStep.forEach GColl.groupCols (GCond.unknownColumn GRole.each) GOut.err,
+    GStep.guard (GCond.eqI GInt.len (GInt.lit 0)) GOut.returnSelf]),
+  ("GroupBy", [
+    GStep.guard GCond.qfHasErr GOut.carryErr,
+    GStep.forEach GColl.groupCols (GCond.unknownColumn GRole.each) GOut.err,
+    GStep.guard (GCond.eqI GInt.len (GInt.lit 0)) GOut.ok]),
+  ("Aggregate", [
+    GStep.guard GCond.grouperHasErr GOut.carryErr,
+    GStep.forEachWork GColl.aggCols (GCond.unknownColumn GRole.each) GOut.err]),
+  ("QFrames", [
+    GStep.guard GCond.grouperHasErr GOut.carryErr]),
+  ("apply0", [
+    GStep.guard GCond.qfHasErr GOut.returnSelf]),
+  ("apply1", [
+    GStep.guard GCond.qfHasErr GOut.returnSelf,
+    GStep.guard (GCond.unknownColumn GRole.src) GOut.err]),
+  ("apply2", [
+    GStep.guard GCond.qfHasErr GOut.returnSelf,
+    GStep.guard (GCond.unknownColumn GRole.src) GOut.err,
+    GStep.guard (GCond.unknownColumn GRole.src2) GOut.err]),
+  ("FilteredApply", [
+    GStep.subFails "Filter"]),
+  ("WithRowNums", []),
+  ("Eval", [
+    GStep.guard GCond.qfHasErr GOut.returnSelf]),
+  ("Filter", [
+    GStep.guard GCond.qfHasErr GOut.returnSelf]),
+  ("filterLeaf", [
+    GStep.guard GCond.qfHasErr GOut.returnSelf,
+    GStep.forEachWork GColl.filterCols (GCond.unknownColumn GRole.each) GOut.err]),
+  ("Equals", [
+    GStep.guard (GCond.not (GCond.eqI GInt.indexLen GInt.otherIndexLen)) GOut.retFalse,
+    GStep.guard (GCond.not (GCond.eqI GInt.colCount GInt.otherColCount)) GOut.retFalse,
+    GStep.forEachPair GCond.pairNameDiffers GOut.retFalse,
+    GStep.forEachPair GCond.pairContentDiffers GOut.retFalse,
+    GStep.done GOut.retTrue]),
+  ("ToCSV", [
+    GStep.guard GCond.qfHasErr GOut.err,
+    GStep.guardIf (GCond.given GColl.csvCols) (GCond.not (GCond.eqI (GInt.count GColl.csvCols) GInt.colCount)) GOut.err,
+    GStep.forEachIf (GCond.given GColl.csvCols) GColl.csvCols (GCond.unknownColumn GRole.each) GOut.err]),
+  ("ToJSON", [
+    GStep.guard GCond.qfHasErr GOut.err]),
+  ("ToSQL", [
+    GStep.guard GCond.qfHasErr GOut.err]),
+  ("ReadCSV", [
+    GStep.guard (GCond.extFails 0) GOut.err]),
+  ("ReadJSON", [
+    GStep.guard (GCond.extFails 0) GOut.err]),
+  ("ReadSQL", []),
+  ("ReadSQLWithArgs", [
+    GStep.guard (GCond.extFails 0) GOut.err,
+    GStep.guard (GCond.extFails 1) GOut.err,
+    GStep.guard (GCond.extFails 2) GOut.err])]
+
+/-- number of error returns AFTER the translated prefix (for a `forEachWork` loop: in the rest of its body): (operation, count) -/
+def lateErrors2 : List (String × Nat) := [("Sort", 0), ("Distinct", 0), ("GroupBy", 0), ("Aggregate", 2), ("QFrames", 0), ("apply0", 2), ("apply1", 2), ("apply2", 1), ("FilteredApply", 0), ("WithRowNums", 0), ("Eval", 0), ("Filter", 0), ("filterLeaf", 2), ("Equals", 0), ("ToCSV", 3), ("ToJSON", 3), ("ToSQL", 2), ("ReadCSV", 0), ("ReadJSON", 0), ("ReadSQL", 0), ("ReadSQLWithArgs", 0)]
+
+/-- `return recv.m(…)` / `return F(…)` / `return <parameter>.m(…)` after the prefix: (operation, callee by role: an exported name, `set`, `apply0`…, `filterLeaf`, `parameter`, else `helper`) -/
+def openTails2 : List (String × String) := [("apply0", "Copy"), ("apply0", "set"), ("apply1", "set"), ("apply2", "set"), ("WithRowNums", "Apply"), ("Filter", "parameter"), ("ReadCSV", "New"), ("ReadJSON", "New"), ("ReadSQL", "ReadSQLWithArgs"), ("ReadSQLWithArgs", "New")]
+
+/-- frame methods called after the prefix on anything but a parameter, in source order: (operation, callees by role) -/
+def laterCalls : List (String × List String) := [("apply0", ["Copy", "set"]), ("apply1", ["set"]), ("apply2", ["set"]), ("FilteredApply", ["Apply"]), ("WithRowNums", ["Apply"]), ("Eval", ["Copy", "Drop"])]
+
+/-- `QFrame.Apply`: a loop without guards -/
+def applyAst : ApplyAst :=
+  { accFromRecv := true, disp := IDisp.ifEmpty IField.src1 (IDisp.call 0 [IField.fn, IField.dst]) (IDisp.ifEmpty IField.src2 (IDisp.call 1 [IField.fn, IField.dst, IField.src1]) (IDisp.call 2 [IField.fn, IField.dst, IField.src1, IField.src2])), returnsAcc := true }
+
+/-- the instructions `WithRowNums` passes to `Apply` -/
+def rowNumsAst : Option (List InstrLit) := some [{ dst := (some GRole.dst), src1Set := false, src2Set := false, fnIsFuncLit := true }]
+
+/-- `GroupBy` builds its `Grouper` with the receiver's name map, so `Aggregate` checks its columns against the frame's -/
+def grouperSharesNames : Bool := true
+
 end QF.Gen
